@@ -108,6 +108,20 @@ CLAIMED['C18'] = {
           'primitives is not checked); block / generate_multiline_list / placeholders have no contract.',
   'design': '7.3 (C18)',
 }
+CLAIMED['C03'] = {
+  'text': 'Only spec errors escape, partly proved: for the literal-check layer of the IR (check and __init__ of Int32/UInt32/Int64/UInt64, '
+          'Float32/Float64, String, Boolean, Bytes, Void in stone/ir/data_types.py) the escape sets are proved (z3): nothing but the documented '
+          'ValueError / ParameterError that the caller converts can leave them, for every argument of the closed-world universe. The lexer, '
+          'the LALR parser and the passes of ir_generator.py are NOT proved (outside the VC generator): the postcondition of specs_to_ir taken '
+          'from the statement (returns an API description or raises InvalidSpec with a non-empty message, an integer line and one of the '
+          'input paths) is checked on a valid multi-file spec subjected to 1-3 token-level edits (delete / duplicate / swap / replace a token, '
+          'change a literal kind, shift indentation, truncate, splice) -- a BOUNDED stand-in.',
+  'note': 'The bounded part found 21 distinct escape sites on the unchanged tree: 4 were repaired (fix: commits 4f1597e, 68f786a, 3666098, '
+          '70f49c3: unmatched parenthesis, end of input inside a definition, unrecoverable syntax error, misplaced contextual keyword), 17 in '
+          'ir_generator.py / data_types.py / api.py are listed as known findings, each identified by exception type and raising function '
+          '(contracts/frontend.py: escape_site) so that any other escape is still reported. Termination is not proved.',
+  'design': '7.3 (C03)',
+}
 NOT_YET = {
  'C01': 'not decided by this technique in this revision: acceptance <=> language rules is a property of the whole frontend (ply lexer / LALR tables, '
         'the parser actions and the ten resolution passes of ir_generator.py, ~2000 lines over mutable AST/IR graphs), which is outside the Python '
@@ -115,9 +129,6 @@ NOT_YET = {
         'contracts/ir_types.py) and one layer does not decide the property',
  'C02': 'not decided: a whole-pipeline property (AST -> IR faithfulness across all passes). Proved pieces exist (ApiNamespace.add_route keeps the by-name '
         'tables equal to the route list) but the passes that build the description are outside the VC generator; not claimed on that basis',
- 'C03': 'not decided: escape-set obligations ("nothing but the spec error escapes") are proved only for the check / constructor layer of the IR primitive '
-        'types (where they found and fixed a TypeError escape, fix 2a11247); the ~150 raise sites and implicit failure points of parser.py and '
-        'ir_generator.py are not under contract, so the property as stated (any text) is not claimed',
  'C07': 'not decided: needs lemmas over Enc/Dec for pairs of type descriptions including structs and unions; the composite round-trip induction over the '
         'recursive specification functions did not go through the merge-mode evaluator (see C04), so these lemmas are not available',
  'C11': 'not decided: independence of file / definition order is a property of the resolution passes as a whole (and of stdin splitting in cli.main); no '
